@@ -1355,8 +1355,8 @@ def _exhaustive_layer(prop, tier, shard, nshards, acc, budget=None):
             if budget is not None and budget.overdue():
                 acc.count('exhaustive_layer_truncated')
                 # on a loaded machine the enumeration may not fit; the random workload (with its floor of cases) still decides,
-            # and the evidence says that the enumeration was cut short
-            acc.notes.append('exhaustive small-scope layer cut short (three times the shard budget used up)')
+                # and the evidence says that the enumeration was cut short
+                acc.notes.append('exhaustive small-scope layer cut short (three times the shard budget used up)')
                 return
             nows = ['early', 'same' if i % 2 else 'late'] if direction == 'fwd' else ['early']
             for bal in (True, False):
